@@ -2,10 +2,11 @@
 From PV Require Import Lib.Base Lib.Utf8 Syntax.RGrammar Syntax.Code Model.PState Spec.Pos Model.Runtime Proofs.Utf8Proofs.
 Local Open Scope nat_scope.
 
-(* A savepoint is coherent with the input when its cached suffix is data[offset:]
-   and (rn, w) is what DecodeRune returns there. *)
+(* A savepoint is coherent with the input when its cached suffix is data[offset:],
+   (rn, w) is what DecodeRune returns there, and the offset lies within the input. *)
 Definition sp_ok (d : bytes) (p : savepoint) : Prop :=
-  sp_rest p = skipn (offset (sp_pos p)) d /\ (sp_rn p, sp_w p) = decode (sp_rest p).
+  sp_rest p = skipn (offset (sp_pos p)) d /\ (sp_rn p, sp_w p) = decode (sp_rest p) /\
+  offset (sp_pos p) <= length d.
 
 Lemma adv_facts p :
   sp_rest (adv p) = skipn (sp_w p) (sp_rest p) /\
@@ -39,12 +40,23 @@ Qed.
 
 Lemma read_sp_ok c s :
   sp_rest (pt s) = skipn (offset (sp_pos (pt s))) (cData c) ->
+  offset (sp_pos (pt s)) + sp_w (pt s) <= length (cData c) ->
   sp_ok (cData c) (pt (read c s)).
 Proof.
-  intros H. destruct (read_pt c s) as (Hr & Ho & Hd). cbv zeta in *.
-  split.
+  intros H Hl. destruct (read_pt c s) as (Hr & Ho & Hd). cbv zeta in *.
+  split; [|split].
   - rewrite Hr, Ho, H. apply skipn_skipn'.
   - rewrite Hd, Hr. reflexivity.
+  - rewrite Ho. exact Hl.
+Qed.
+
+(* the width of the rune at a coherent savepoint stays within the input *)
+Lemma sp_ok_width d p : sp_ok d p -> offset (sp_pos p) + sp_w p <= length d.
+Proof.
+  intros (A & B & L).
+  assert (Hw : sp_w p <= length (sp_rest p)).
+  { pose proof (decode_width_le (sp_rest p)) as H. rewrite <- B in H. exact H. }
+  rewrite A in Hw. rewrite skipn_length in Hw. lia.
 Qed.
 
 (* errs after read: exactly one "invalid encoding" error is appended iff the byte
